@@ -279,4 +279,14 @@ def main(argv=None):
 
 
 if __name__ == "__main__":
-    sys.exit(main())
+    try:
+        rc = main()
+    except SystemExit:
+        raise
+    except BaseException:
+        # a crash of the harness itself must never look like a verdict
+        import traceback
+        traceback.print_exc()
+        print("HARNESS-ERROR the runner crashed (see traceback)")
+        rc = 2
+    sys.exit(rc)
